@@ -118,3 +118,24 @@ Definition shift_jump_check (t : telem) (a b : nat) (gid grev : fsym) (coef pt :
 
 Definition shift_refuted_ok (x : telem * (fsym * fsym * list Q * list Q)) : bool :=
   let '(t, (gid, grev, coef, pt)) := x in shift_jump_check t 1 0 gid grev coef pt.
+
+(* ---- elements whose own gbasis re-labels / negates the reference functions depending on the orientation sign
+   (ElementTriN3): the EFFECTIVE reference basis for a given orientation is  sign_i * lbasis(idx_i); the table
+   (sign_i, idx_i) is measured on the real gbasis for all local indices (exhaustive) ---- *)
+Definition hcurl2_scaled (c : Q) (b : bfun) : bfun :=
+  match b with BHcurl2 v cl => BHcurl2 (map (pscale c) v) (pscale c cl) | _ => BMat [] end.
+Definition hcurl2_eqb (a b : bfun) : bool :=
+  match a, b with
+  | BHcurl2 v cl, BHcurl2 v' cl' => polys_eqb v v' && peqb cl cl'
+  | _, _ => false
+  end.
+Fixpoint eff_rows (bs : list bfun) (tab : list (Q * nat)) (bs' : list bfun) : bool :=
+  match tab, bs' with
+  | [], [] => true
+  | (c, idx) :: tab', b' :: bs'' => hcurl2_eqb (hcurl2_scaled c (nth idx bs (BMat []))) b' && eff_rows bs tab' bs''
+  | _, _ => false
+  end.
+Definition eff_matches (x : elem * list (Q * nat) * elem) : bool :=
+  let '(e, tab, e') := x in
+  Nat.eqb (length tab) (length (e_basis e)) && forallb (fun ci => is_sign (fst ci) && Nat.ltb (snd ci) (length (e_basis e))) tab &&
+  eff_rows (e_basis e) tab (e_basis e').
